@@ -167,11 +167,70 @@ func namedOf(t types.Type) *types.Named {
 		case *types.Pointer:
 			t = x.Elem()
 		case *types.Named:
-			return x
+			return canonNamed(x)
 		default:
 			return nil
 		}
 	}
+}
+
+var canonCache = map[*types.Named]*types.Named{}
+
+// canonNamed maps an unexported struct type declared as `type t T` (same underlying struct as an exported
+// type T of the same package - the repository's idiom for hiding interface methods) to T.
+func canonNamed(n *types.Named) *types.Named {
+	if c, ok := canonCache[n]; ok {
+		return c
+	}
+	res := n
+	if n.Obj().Pkg() != nil && !n.Obj().Exported() && inModule(n.Obj().Pkg()) && n.TypeParams().Len() == 0 {
+		if _, isStruct := n.Underlying().(*types.Struct); isStruct {
+			sc := n.Obj().Pkg().Scope()
+			for _, name := range sc.Names() {
+				tn, ok := sc.Lookup(name).(*types.TypeName)
+				if !ok || !tn.Exported() || tn.IsAlias() {
+					continue
+				}
+				m, ok := tn.Type().(*types.Named)
+				if !ok || m == n || m.TypeParams().Len() != 0 {
+					continue
+				}
+				if types.Identical(m.Underlying(), n.Underlying()) && strings.EqualFold(m.Obj().Name(), n.Obj().Name()) {
+					res = m
+				}
+			}
+		}
+	}
+	canonCache[n] = res
+	return res
+}
+
+// descReroot: when set, access paths restart at every pointer to a named struct ("<T>.field"), so that
+// facts established inside a method of T match uses through a containing object.
+var descReroot = false
+
+func rerootBase(x ssa.Value) (string, bool) {
+	if !descReroot {
+		return "", false
+	}
+	if _, isParam := x.(*ssa.Parameter); isParam {
+		return "", false
+	}
+	pt, ok := x.Type().(*types.Pointer)
+	if !ok {
+		return "", false
+	}
+	n, ok := pt.Elem().(*types.Named)
+	if !ok || n.Obj().Pkg() == nil || !inModule(n.Obj().Pkg()) {
+		return "", false
+	}
+	if _, isStruct := n.Underlying().(*types.Struct); !isStruct {
+		return "", false
+	}
+	if _, isAlloc := x.(*ssa.Alloc); isAlloc {
+		return "", false
+	}
+	return "<" + typeShort(canonNamed(n)) + ">", true
 }
 
 func fieldName(t types.Type, idx int) string {
@@ -235,6 +294,9 @@ func descD(v ssa.Value, depth int) string {
 		}
 		return "global:" + pk + "." + x.Name()
 	case *ssa.FieldAddr:
+		if b, ok := rerootBase(x.X); ok {
+			return b + "." + fieldName(x.X.Type(), x.Field)
+		}
 		return descD(x.X, depth+1) + "." + fieldName(x.X.Type(), x.Field)
 	case *ssa.Field:
 		return descD(x.X, depth+1) + "." + fieldName(x.X.Type(), x.Field)
@@ -311,21 +373,38 @@ func descD(v ssa.Value, depth int) string {
 		return "call:" + name + "(" + strings.Join(args, ",") + ")"
 	case *ssa.Phi:
 		if isInduction(x) {
-			return "#i"
+			return inductionName(x.Block())
 		}
-		var es []string
-		seen := map[string]bool{}
-		for _, e := range x.Edges {
-			if e == x {
-				continue
+		// leaves through phis (and through append, which extends its first argument): stable under nesting
+		leaves := map[string]bool{}
+		seenV := map[ssa.Value]bool{}
+		var walk func(v ssa.Value)
+		walk = func(v ssa.Value) {
+			if seenV[v] {
+				return
 			}
-			d := descD(e, depth+3)
-			if !seen[d] {
-				seen[d] = true
-				es = append(es, d)
+			seenV[v] = true
+			switch y := v.(type) {
+			case *ssa.Phi:
+				if isInduction(y) {
+					leaves[inductionName(y.Block())] = true
+					return
+				}
+				for _, e := range y.Edges {
+					walk(e)
+				}
+			case *ssa.Call:
+				if isCallTo(y, "builtin:append") {
+					walk(y.Call.Args[0])
+					return
+				}
+				leaves[descD(y, depth+2)] = true
+			default:
+				leaves[descD(v, depth+2)] = true
 			}
 		}
-		sort.Strings(es)
+		walk(x)
+		es := sortedKeys(leaves)
 		if len(es) == 1 {
 			return es[0]
 		}
@@ -343,7 +422,7 @@ func descD(v ssa.Value, depth int) string {
 	case *ssa.BinOp:
 		if ph, ok := x.X.(*ssa.Phi); ok && x.Op == token.ADD && ph.Comment == "rangeindex" && isInduction(ph) {
 			if c, ok := constInt(x.Y); ok && c == 1 {
-				return "#i"
+				return inductionName(ph.Block())
 			}
 		}
 		return "(" + descD(x.X, depth+1) + x.Op.String() + descD(x.Y, depth+1) + ")"
@@ -605,4 +684,21 @@ func (P *Program) reachableFuncs(roots ...*ssa.Function) []*ssa.Function {
 	}
 	sort.Slice(out, func(i, j int) bool { return FuncKey(out[i]) < FuncKey(out[j]) })
 	return out
+}
+
+// inductionName names an induction variable by the nesting depth of its loop: #i, #j, #k.
+func inductionName(header *ssa.BasicBlock) string {
+	depth := 0
+	for h := header; h != nil; h = h.Idom() {
+		if l := findLoop(h); l != nil && l.Body[header] {
+			depth++
+		}
+	}
+	switch {
+	case depth <= 1:
+		return "#i"
+	case depth == 2:
+		return "#j"
+	}
+	return "#k"
 }
